@@ -40,6 +40,7 @@ type Variant struct {
 	Explicit bool `json:"explicit,omitempty"` // the documented defaults are passed explicitly: Threshold(30 min), IgnoreInconsistency(false), IgnoreMissingChildren(false), ChildFilter(nil)
 	Polygon  bool `json:"polygon,omitempty"`  // relation parents are tagged type=multipolygon and their members carry the roles outer / inner
 	Late     int  `json:"late,omitempty"`     // every child history of more than Late versions is handed over without its first Late versions (a history extract that starts later: parents before it reference a child that is "not yet there")
+	Refilter int  `json:"refilter,omitempty"` // x+1: after the judged call the same parents are annotated again with a ChildFilter accepting only child x (the incremental workflow: one child changed); nothing about the histories changed, so the same truth is judged again
 	Strip    int  `json:"strip,omitempty"`    // which elements come without a commit time (stripXxx); only in spaces whose upload instants are whole seconds
 }
 
@@ -80,7 +81,7 @@ func (v Variant) class() string {
 		return "parent-suffix"
 	case v.Late > 0:
 		return "late-child-history"
-	case v.Twice || v.Retry || v.Prefix:
+	case v.Twice || v.Retry || v.Prefix || v.Refilter > 0:
 		return "second-call"
 	case v.Polygon:
 		return "multipolygon-parent"
